@@ -32,3 +32,42 @@ package inmem
 //@   ensures [foreign-rejected] (exists i int :: 0 <= i && i < 8 && i < len(bookmark) && bookmark[i] != cookieByte(i)) ==> err != nil
 //@   ensures [inverse] forall p int64 :: -9223372036854775808 <= p && p <= 9223372036854775807 && isBookmarkOf(bookmark, p) ==> err == nil && result0 == p
 //@   ensures [accepted-wellformed] err == nil ==> isBookmarkOf(bookmark, result0)
+
+// ---------------------------------------------------------------------------
+// ResourceCollection: ring buffer of events over a ghost log of everything
+// ever published (log[p] is event number p).
+
+//@ type ResourceCollection
+//@   ghost log map[int64]state.Event
+//@   ghost cap0 int
+//@   guarded_by mu: storage, stream, writePos, capacity, log
+//@   invariant [shape] ringShape(self)
+//@   invariant [ring] ringWindow(self)
+//@   invariant [logwf] logWF(self)
+//@
+//@ pred ringShape(c *ResourceCollection) := c.cap0 >= 1 && 0 <= c.gap && c.gap <= c.cap0 && c.capacity >= c.cap0 &&
+//@   len(c.stream) == c.capacity && c.writePos >= 0 && (c.writePos <= c.capacity || c.capacity >= c.maxCapacity) && c.c != nil
+//@ pred ringWindow(c *ResourceCollection) := forall p int64 :: 0 <= p && c.writePos - c.capacity <= p && p < c.writePos ==>
+//@   c.stream[p % c.capacity] == c.log[p]
+//@ pred isCUD(t state.EventType) := t == state.Created || t == state.Updated || t == state.Destroyed
+//@ pred eventWF(e state.Event, p int64) := e.Resource != nil && isBookmarkOf(e.Bookmark, p) && isCUD(e.Type) &&
+//@   (e.Type == state.Updated ==> e.Old != nil)
+//@ pred logWF(c *ResourceCollection) := forall p int64 :: 0 <= p && p < c.writePos ==> eventWF(c.log[p], p)
+//@
+//@ func (*ResourceCollection).publish
+//@   props C02
+//@   requires collection != nil && held(collection.mu)
+//@   requires [shape] ringShape(collection)
+//@   requires [ring] ringWindow(collection)
+//@   requires [logwf] logWF(collection)
+//@   requires event.Resource != nil && isCUD(event.Type) && (event.Type == state.Updated ==> event.Old != nil)
+//@   modifies collection.stream, collection.capacity, collection.writePos, elems(collection.stream), elems(collection.log)
+//@   ghost collection.log[old(collection.writePos)] = collection.stream[old(collection.writePos) % collection.capacity]
+//@   ensures [inv-shape] ringShape(collection)
+//@   ensures [inv-ring; using ring, append] ringWindow(collection)
+//@   ensures [inv-logwf; using logwf, encodes] logWF(collection)
+//@   ensures [advance] collection.writePos == old(collection.writePos) + 1 && collection.capacity >= old(collection.capacity)
+//@   ensures [logged] collection.log[old(collection.writePos)].Type == event.Type &&
+//@     collection.log[old(collection.writePos)].Resource == event.Resource &&
+//@     collection.log[old(collection.writePos)].Old == event.Old && collection.log[old(collection.writePos)].Error == event.Error
+//@   ensures [log-stable] forall p int64 :: 0 <= p && p < old(collection.writePos) ==> collection.log[p] == old(collection.log[p])
